@@ -7,9 +7,15 @@
 #include <utility>
 #include "common_types.h"
 
+#ifdef TEAKRA_VERIF
+struct TeakraVerifAccess; // verification hook: read/seed private state
+#endif
 namespace Teakra {
 
 class ICU {
+#ifdef TEAKRA_VERIF
+    friend struct ::TeakraVerifAccess;
+#endif
 public:
     using IrqBits = std::bitset<16>;
     u16 GetRequest() const {
